@@ -10,7 +10,6 @@ from rules import props  # noqa: E402
 NA = {
     "C10": "shortest-round-trip float formatting and literal-preserving decimal rewriting are numerical results over all doubles/literals; no structural clause that would not also fire on correct code (jq mode intentionally prints 17 significant digits)",
     "C24": "the oracle is an external binary's (jq 1.7.1) behaviour, not present as source; static analysis of one implementation cannot compare it with another",
-    "C25": "algebraic identities between builtins over all JSON values are semantic equalities of ~50k lines of interpreter; no shape-level clause",
 }
 
 
